@@ -69,7 +69,7 @@ impl Property for C13 {
         "Cases: (a) subject of any type/length/provenance -> to_vec and write in both endiannesses compared with model bytes (exactly ceil(n/8) bytes, surplus bits zero, Big = reversed Little) and the round trips read(write(v))==v, from_bytes(to_vec(v)) == v zero-extended to whole bytes; (b) arbitrary byte strings of 0..ceil(C/8)+2 (<=48) bytes -> from_bytes: length 8*|bytes| and exact bits, or NotEnoughCapacity iff 8*|bytes|>C; (c) read(bytes, len, endianness, reader chunking all-at-once | one byte per call) with surplus high bits SET: Err (never a panic) when the input is short or len>C, otherwise exactly len bits with the surplus discarded, exactly ceil(len/8) bytes consumed, battery clean. Enumerated: every length 0..=min(C,320) x both endiannesses x two byte patterns (0xFF.., mixed) x 18 types for (a) and (c), every byte count 0..=C/8+2 for (b). Non-trivial: len%8 != 0 with a surplus bit set in the top byte, or the vector spans several storage words. Distinct by hash of the case.".into()
     }
     fn random_cases(&self, tier: Tier) -> u64 {
-        tier.pick(40_000, 400_000)
+        tier.pick(200000, 800000)
     }
     fn strategy(&self, tier: Tier) -> BoxedStrategy<C13Case> {
         let lmax = lmax_dyn(tier);
